@@ -17,6 +17,7 @@
 from types import FrameType
 from typing import List
 
+from deep import logging
 from deep.api.tracepoint.trigger import Location
 
 from deep.processor.context.action_results import ActionCallback
@@ -87,7 +88,12 @@ class CallbackContext(Location, ActionCallback):
         :return: True, to keep this callback until next match.
         """
         for callback in self.__callbacks:
-            callback.process(ctx, event, frame, arg)
+            try:
+                callback.process(ctx, event, frame, arg)
+            except Exception:
+                # one callback failing (e.g. a snapshot that cannot be handed over) must not stop the others (e.g. a
+                # span of another tracepoint that has to be closed)
+                logging.exception("Cannot complete %s", callback)
 
     @property
     def id(self) -> str:
